@@ -42,16 +42,18 @@ class RampItem(StubItem):
         return r
 
 
-def case_step(ctx, nsub=3):
+def case_step(ctx, nsub=3, extra_items=0):
     field = tiny_field(ctx)
     n = 8
     item = RampItem(ctx, field, n, "a")
+    # further items of the same step (not ramped): the state of EVERY item is committed exactly once per converged substep
+    others = [RampItem(ctx, field, n, "x%d" % k) for k in range(extra_items)]
     ramp = ctx.array("ramp", (nsub,), -1, 1)
     with ctx.concrete():
         mask = np.zeros(4, dtype=bool)
         mask[0] = True
     bounds = {"fix": fem.Boundary(field[0], mask=mask, value=ctx.var("bc", -1, 1))}
-    step = fem.Step(items=[item], ramp={item: list(ramp)}, boundaries=bounds)
+    step = fem.Step(items=[item] + others, ramp={item: list(ramp)}, boundaries=bounds)
     tol = ctx.var("tol", 1e-6, 1e-2)
     log = []
     results = []
@@ -83,6 +85,10 @@ def case_step(ctx, nsub=3):
     if failed:
         last_ok = results[-1][1] if results else ("initial", "a")
         ctx.check_concrete("failed_substep_commits_nothing", item.results.statevars == last_ok)
+    for o in others:
+        # the other items saw the same evaluations: after k converged substeps their committed state is their evaluation 2k - 1
+        want = ("state", o.name, per * k - 1) if k else ("initial", o.name)
+        ctx.check_concrete("state_of_item_%s_committed_with_the_converged_substeps" % o.name, o.results.statevars == want, "%s expected %s" % (o.results.statevars, want))
 
 
 def case_job(ctx, with_x0=False):
@@ -228,6 +234,7 @@ def case_plasticity(ctx, npoints=1):
 def cases(tier):
     return [
         ("step", case_step, {"nsub": 3, "max_paths": 16}),
+        ("step", case_step, {"nsub": 2, "extra_items": 1, "max_paths": 16}),
         ("job", case_job, {"max_paths": 16}),
         ("job", case_job, {"with_x0": True, "max_paths": 16}),
         ("ogden_roxburgh_history", case_ogden_roxburgh_history, {"max_paths": 32}),
